@@ -118,7 +118,8 @@ class C17(Prop):
         for _ in range(n):
             kind = rng.choice(KINDS)
             v = rfc4512.g_value(rng, kind)
-            tree = cstmod.make(rng, kind, v, ad_syntax=(kind == "attribute_type" and rng.random() < 0.3))
+            dup = [rfc4512.g_text(rng) for _ in range(rng.choice([0, 1, 2]))] if rng.random() < 0.15 else None
+            tree = cstmod.make(rng, kind, v, ad_syntax=(kind == "attribute_type" and rng.random() < 0.3), dup_values=dup)
             cases.append({"kind": kind, "v": v, "tree": tree, "text": cstmod.render(kind, tree), "mode": "tree"})
         ans = model.run_batch([[CST_CMD[c["kind"]], c["tree"]] for c in cases], extended=True)
         out = []
